@@ -9,3 +9,5 @@ pub mod prelude;
 pub mod statistics;
 pub mod timeseries;
 pub mod validation;
+#[cfg(feature = "verif-hooks")]
+pub mod verif_hooks;
